@@ -1,5 +1,4 @@
-import PicoProofs.SpecLaws
-import PicoProofs.DecSafe
+import PicoProofs.EndToEnd
 import PicoProofs.Tie
 /-
 C05 — Unmarshal succeeds only on well-formed input it has fully consumed.
@@ -34,5 +33,28 @@ latched error), see C04; and an error, once latched, is never cleared by the cur
 (C13_error_sticky_*). -/
 theorem C05_machine_total (S : Schema) (id : Nat) (data : Bytes) (m0 : Val) :
     ∃ d m, Gen2.unmarshal S id data m0 = .ok (d, m) := Gen2.unmarshal_total S id data m0
+
+/-- MACHINE LEVEL (through the decoder refinement): Unmarshal returns nil exactly when the input is
+well formed — for every byte string, every supported schema, every message of the right shape -/
+theorem C05_unmarshal_nil_iff_wellformed (S : Schema) (hS : S.supported = true) (id : Nat) (data : Bytes) (m0 : Val)
+    (hm0 : Gen2.shMsg S id m0 = true) :
+    ∃ d m, Gen2.unmarshal S id data m0 = .ok (d, m) ∧
+      (d.err = none ↔ wellFormed S (2 * data.length + 2) id data = true) := by
+  obtain ⟨d, m, hr, hiff, _⟩ := Gen2.unmarshal_refines_spec S hS id data m0 hm0
+  refine ⟨d, m, hr, ?_⟩
+  rw [hiff, ← specDec_ok_iff_wellFormed S id data m0]
+  rfl
+
+/-- an error detected at any depth is never lost: if the specification rejects (at whatever depth
+the offending record sits), the machine's final error is non-nil -/
+theorem C05_error_never_lost (S : Schema) (hS : S.supported = true) (id : Nat) (data : Bytes)
+    (hbad : Spec.specUnmarshal S id data (Gen2.zeroMsg S id) = none) :
+    ∃ d m, Gen2.unmarshal S id data (Gen2.zeroMsg S id) = .ok (d, m) ∧ d.err ≠ none := by
+  obtain ⟨d, m, hr, hiff, _⟩ := Gen2.unmarshal_new_refines_spec S hS id data
+  refine ⟨d, m, hr, ?_⟩
+  intro he
+  have := hiff.mp he
+  rw [hbad] at this
+  cases this
 
 end Pico.Props
